@@ -563,3 +563,108 @@ pub fn replay_stream(a: &Args, out: &mut Out) {
     }
     out.emit(json!({"ev": "ReplaySummary", "behaviours": nb, "scans": nscan}));
 }
+
+// ---------------------------------------------------------------- Link: sender -> channel -> receiver sessions
+
+/// End-to-end sessions on the real code: a real MessageBuilder sends frames of real messages, the
+/// channel puts noise without 0xD3 between them, the receiver feeds arbitrary chunks to the real
+/// scanner (sending and receiving interleave) and decodes what is delivered.
+pub fn rec_link(a: &Args, out: &mut Out) {
+    let n = a.num("n", 150);
+    let mut r = rng(a.seed(), 60);
+    let nums = supported_numbers();
+    for _ in 0..n {
+        out.emit(json!({"ev": "LinkInit"}));
+        let mut builder = MessageBuilder::new();
+        let mut wire: Vec<u8> = vec![];
+        let mut pending: Vec<u8> = vec![];
+        let mut fed = 0usize;
+        let mut base = 0usize;
+        let mut delivered: Vec<J> = vec![];
+        let mut got_digests: Vec<String> = vec![];
+        let sends = r.gen_range(1..8);
+        let mut sent = 0;
+        let mut guard = 0;
+        while (sent < sends || fed < wire.len()) && guard < 4000 {
+            guard += 1;
+            let can_send = sent < sends;
+            let choice = r.gen_range(0..10);
+            if can_send && (choice < 3 || fed == wire.len()) {
+                // the sender builds a real message with its (reused) builder
+                let num = *pick(&mut r, &nums);
+                let tmpl = crate::msgen::template(&mut r, num);
+                if let Some(m) = tmpl {
+                    if let Ok(Ok(f)) = guarded(|| builder.build_message(&m).map(|f| f.to_vec())) {
+                        let d = crate::msgen::decode_frame(&f).map(|d| digest(&crate::msgen::msg_to_v(&d).canon().to_string())).unwrap_or_default();
+                        out.emit(json!({"ev": "Send", "frame": bytes_json(&f), "digest": d}));
+                        wire.extend(&f);
+                        sent += 1;
+                    }
+                }
+            } else if can_send && choice == 3 {
+                let k = r.gen_range(1..12);
+                let g: Vec<u8> = (0..k).map(|_| loop { let b: u8 = r.gen(); if b != 0xD3 { break b; } }).collect();
+                out.emit(json!({"ev": "Noise", "bytes": bytes_json(&g)}));
+                wire.extend(&g);
+            } else if fed < wire.len() {
+                let left = wire.len() - fed;
+                let k = (*pick(&mut r, &[1usize, 2, 3, 5, 6, 7, 19, 64, 300, 1029, 5000])).min(left);
+                pending.extend(&wire[fed..fed + k]);
+                fed += k;
+                out.emit(json!({"ev": "Recv", "n": k}));
+                // the receiver scans until no more progress (sometimes lazily)
+                if r.gen_range(0..5) == 0 && (fed < wire.len() || sent < sends) {
+                    continue;
+                }
+                loop {
+                    let o = scan_obs(&pending);
+                    let consumed = o["consumed"].as_i64().unwrap_or(-1);
+                    let at = o["at"].as_i64().unwrap_or(-1);
+                    let len = o["len"].as_i64().unwrap_or(0);
+                    let mut e = o.clone();
+                    e["ev"] = json!("Scan");
+                    out.emit(e);
+                    if consumed < 0 || consumed as usize > pending.len() {
+                        break;
+                    }
+                    if at >= 0 {
+                        delivered.push(json!([base as i64 + at + 1, len]));
+                        let fr = &pending[at as usize..(at + len) as usize];
+                        let d = guarded(|| crate::msgen::decode_frame(fr)).ok().flatten().map(|d| digest(&crate::msgen::msg_to_v(&d).canon().to_string())).unwrap_or_default();
+                        got_digests.push(d);
+                    }
+                    pending.drain(..consumed as usize);
+                    base += consumed as usize;
+                    if consumed == 0 && at < 0 {
+                        break;
+                    }
+                }
+            }
+        }
+        // final scan to quiescence
+        loop {
+            let o = scan_obs(&pending);
+            let consumed = o["consumed"].as_i64().unwrap_or(-1);
+            let at = o["at"].as_i64().unwrap_or(-1);
+            let len = o["len"].as_i64().unwrap_or(0);
+            let mut e = o.clone();
+            e["ev"] = json!("Scan");
+            out.emit(e);
+            if consumed < 0 || consumed as usize > pending.len() {
+                break;
+            }
+            if at >= 0 {
+                delivered.push(json!([base as i64 + at + 1, len]));
+                let fr = &pending[at as usize..(at + len) as usize];
+                let d = guarded(|| crate::msgen::decode_frame(fr)).ok().flatten().map(|d| digest(&crate::msgen::msg_to_v(&d).canon().to_string())).unwrap_or_default();
+                got_digests.push(d);
+            }
+            pending.drain(..consumed as usize);
+            base += consumed as usize;
+            if consumed == 0 && at < 0 {
+                break;
+            }
+        }
+        out.emit(json!({"ev": "LinkEnd", "delivered": delivered, "base": base, "digests": got_digests}));
+    }
+}
